@@ -210,6 +210,16 @@ fn inp(dom: &str, op: &str, x: Value, y: Value) -> Value {
 
 const POOL: [&str; 7] = ["", "a", "b", "aa", "ab", "ba", "bb"];
 const POOL3: [&str; 6] = ["aab", "aba", "abb", "baa", "bab", "bba"];
+const UPOOL: [&str; 4] = ["", "a", "aa", "aaa"];
+/// sub-generator "unary": every string is over the one-letter alphabet {a}, so that TLC can afford the
+/// length bound 16 (spec/trace/T_C06_unary.cfg) and sees repetition bounds beyond the widening threshold
+static UNARY: std::sync::atomic::AtomicBool = std::sync::atomic::AtomicBool::new(false);
+fn unary() -> bool {
+    UNARY.load(std::sync::atomic::Ordering::Relaxed)
+}
+fn pool() -> &'static [&'static str] {
+    if unary() { &UPOOL } else { &POOL }
+}
 
 fn gen_seq(rng: &mut Rng, big: bool) -> BTreeSet<String> {
     let n = if big {
@@ -226,12 +236,16 @@ fn gen_seq(rng: &mut Rng, big: bool) -> BTreeSet<String> {
     let mut guard = 0;
     while (s.len() as i64) < n && guard < 50 {
         guard += 1;
-        let e = match rng.below(20) {
-            0..=1 => "",
-            2..=6 => "a",
-            7..=10 => "b",
-            11..=17 => *rng.pick(&POOL[3..]),
-            _ => *rng.pick(&POOL3),
+        let e = if unary() {
+            *rng.pick(&["", "a", "a", "a", "aa", "aa", "aaa"])
+        } else {
+            match rng.below(20) {
+                0..=1 => "",
+                2..=6 => "a",
+                7..=10 => "b",
+                11..=17 => *rng.pick(&POOL[3..]),
+                _ => *rng.pick(&POOL3),
+            }
         };
         s.insert(e.to_string());
     }
@@ -239,6 +253,25 @@ fn gen_seq(rng: &mut Rng, big: bool) -> BTreeSet<String> {
 }
 
 fn gen_bounds(rng: &mut Rng) -> (u32, u32) {
+    if unary() {
+        return match rng.below(100) {
+            0..=19 => (1, 1),
+            20..=44 => (0, rng.range(1, 5) as u32),
+            45..=52 => {
+                let k = rng.range(2, 4) as u32;
+                (k, k)
+            }
+            53..=64 => {
+                let m = rng.range(1, 4) as u32;
+                (m, rng.range(m as i64 + 1, 6) as u32)
+            }
+            65..=68 => (0, 0),
+            69..=76 => (0, u32::MAX),
+            77..=91 => (0, rng.range(6, 12) as u32),
+            92..=94 => (rng.range(1, 3) as u32, u32::MAX),
+            _ => (rng.range(0, 3) as u32, rng.range(9, 14) as u32),
+        };
+    }
     match rng.below(100) {
         0..=29 => (1, 1),
         30..=54 => (0, rng.range(1, 3) as u32),
@@ -315,7 +348,7 @@ fn perturb(rng: &mut Rng, x: &[B]) -> Vec<B> {
             2 => {
                 // add an element to a brick's set
                 if let Some(i) = pick_value(rng, &y) {
-                    y[i].seq.insert(rng.pick(&POOL).to_string());
+                    y[i].seq.insert(rng.pick(pool()).to_string());
                 }
             }
             3 => {
@@ -346,7 +379,7 @@ fn perturb(rng: &mut Rng, x: &[B]) -> Vec<B> {
             }
             7 => {
                 // append a literal (the loop body `s = s + "lit"`)
-                let lit = rng.pick(&POOL[1..]).to_string();
+                let lit = rng.pick(&pool()[1..]).to_string();
                 y.push(B { top: false, seq: [lit].into_iter().collect(), min: 1, max: 1 });
             }
             _ => {
@@ -443,10 +476,10 @@ fn chain(w: &mut guard::Worker, rng: &mut Rng, events: &mut Vec<Value>, abandone
     let mut s = match rng.below(4) {
         0 => val(&[]),
         1 => val(&[B::empty()]),
-        _ => val(&[lit(*rng.pick(&POOL[..5]))]),
+        _ => val(&[lit(*rng.pick(&pool()[..4]))]),
     };
-    let lits: Vec<&str> = (0..rng.range(1, 2)).map(|_| *rng.pick(&POOL[1..])).collect();
-    let iters = rng.range(3, 14);
+    let lits: Vec<&str> = (0..rng.range(1, 2)).map(|_| *rng.pick(&pool()[1..])).collect();
+    let iters = if unary() { rng.range(6, 18) } else { rng.range(3, 14) };
     for i in 0..iters {
         let l = lits[i as usize % lits.len()];
         let body = if rng.chance(1, 8) { top_val() } else { val(&[lit(l)]) };
@@ -499,22 +532,24 @@ pub fn gen(out: &mut Out, sub: &str) {
         guard::serve(exec);
         return;
     }
-    let mut rng = Rng::new(out.seed ^ 0xC06);
+    let is_unary = sub == "unary";
+    UNARY.store(is_unary, std::sync::atomic::Ordering::Relaxed);
+    let mut rng = Rng::new(out.seed ^ if is_unary { 0x1C06 } else { 0xC06 });
     let mut abandoned_calls = 0u64;
     let mut events: Vec<Value> = Vec::new();
 
     // ---- 1. loop chains (sequential: each input is the previous result) ----------------------
     {
         let mut w = guard::Worker::new(WORKER);
-        for _ in 0..out.size(40, 400) {
+        for _ in 0..(if is_unary { out.size(25, 250) } else { out.size(40, 400) }) {
             chain(&mut w, &mut rng, &mut events, &mut abandoned_calls);
         }
     }
     let chain_events = events.len();
 
     // ---- 2. independent calls -----------------------------------------------------------------
-    let mut inputs = fixed_cases();
-    let n = out.size(450, 6000);
+    let mut inputs = if is_unary { Vec::new() } else { fixed_cases() };
+    let n = if is_unary { out.size(150, 2000) } else { out.size(450, 6000) };
     for _ in 0..n {
         // normalize
         inputs.push(inp("bricks", "normalize", val(&gen_bricks(&mut rng)), no_val()));
@@ -548,7 +583,7 @@ pub fn gen(out: &mut Out, sub: &str) {
     }
 
     // ---- 3. character inclusion: exhaustive over all pairs of values, sent in batches -----------
-    let civ = ci_values();
+    let civ = if is_unary { Vec::new() } else { ci_values() };
     let mut ci_inputs = Vec::new();
     // thorough: all pairs; quick: every 4th pair (which quarter depends on the seed)
     let stride: u64 = out.size(4, 1);
